@@ -58,6 +58,9 @@ Next == /\ ~done /\ done' = TRUE
              \* coordinated: count raised with the file extended so that the index still fits; all eight name bytes non-zero
              /\ EmitClm(<<"count+1-padded", bi>>, SetBytes(img, 56, LE32(Len(ms) + 1)) \o Zeros(16), Len(ms) + 1)
              /\ (Len(ms) > 0 => EmitClm(<<"name-unterminated", bi>>, SetBytes(img, 60, <<65,66,67,68,69,70,71,72>>), Len(ms)))
+             \* coordinated: the LAST index entry without a single zero byte (8 name bytes, offset and length 0xFFFFFFFF): nothing terminates the name inside the table
+             /\ (Len(ms) > 0 => EmitClm(<<"last-entry-no-zero-byte", bi>>, SetBytes(img, 60 + 16 * (Len(ms) - 1), <<65,66,67,68,69,70,71,72,255,255,255,255,255,255,255,255>>), Len(ms)))
+             /\ (Len(ms) > 0 => EmitClm(<<"all-entries-no-zero-byte", bi>>, SetBytes(img, 60, [i \in 1..(16 * Len(ms)) |-> 200 + (i % 50)]), Len(ms)))
         /\ \A bi \in 1..Len(WavBases) :
              LET ch == WavBases[bi]  img == WavImg(ch)  flen == Len(img) IN
              /\ EmitWav(<<"wav-base", bi>>, img)
